@@ -4,7 +4,13 @@ proof : lean/GeosModel/Props/C14.lean — theorems about the protocol model Mode
         (literal transcription of Interrupt::{request,cancel,check,registerCallback,process}, GEOS_init_r,
         capi `execute`): interrupt_at_k, rerun_equals_clean, benign_callback_noop, pre_request,
         pre_request_zero_polls (edge), cancel_before_poll, callback_cancel_before_test, interrupted_iff, ...
-tie   : (1) stream `proto`: random call scripts drive the REAL geos::util::Interrupt functions (and GEOS_init_r)
+tie   : (0) translator (every run): translate/cxx2lean.py (spec `interrupt`) regenerates Interrupt::{request,cancel,check,
+            registerCallback,interrupt,process} and GEOS_interrupt{Request,Cancel,RegisterCallback} from the current source into
+            lean/GeosModel/Generated/Interrupt.lean; Props/C14Gen.lean proves each equal to the function of the protocol model
+            for all states / callbacks / poll indices (gen_*_eq), and gen_process_throws_iff / gen_process_clears for an
+            arbitrary callback.  Refuses if the file-level state, its initial values, the GEOS_CHECK_FOR_INTERRUPTS macro or
+            GEOS_init_r change shape.
+        (1) stream `proto`: random call scripts drive the REAL geos::util::Interrupt functions (and GEOS_init_r)
             step by step; every observable (check(), previous callback, threw?) is compared with the model.
         (2) stream `ops` (ASan+LSan build): for ~45 interruptible operations of the C API (+ the old RelateOp via
             the C++ API) and generated inputs: a clean run with a counting callback gives N and the clean result;
@@ -182,13 +188,15 @@ def run_one(exe, case, env=None):
 
 def run(ctx):
     ctx.base_trust([
-        "C14 model (lean/GeosModel/Model/Interrupt/Proto.lean) is a hand transcription of src/util/Interrupt.cpp, GEOS_init_r and capi `execute`; it is tied to the real functions by the `proto` script stream",
+        "C14 model (lean/GeosModel/Model/Interrupt/Proto.lean): its functions request/cancel/check/registerCallback/process are proved equal to the definitions regenerated from src/util/Interrupt.cpp and capi/geos_c.cpp on every run (translate/cxx2lean.py + translate/specs/interrupt.py + t4ext.py, trusted: the translator's reading of the C++ fragment, std::atomic treated as a plain variable — single thread); GEOS_init_r (only its statement list is checked) and capi `execute` remain hand transcriptions; all of it is also tied to the real functions by the `proto` script stream",
+        "a callback is modelled by what it does to the flag (request / cancel / nothing per invocation); a callback that re-registers callbacks from inside process() is outside the model",
         "an operation is abstracted to (N polls, result) measured on the implementation; determinism of the operation (same N, same bytes on unchanged inputs) is an explicit hypothesis, probed by running every clean case twice",
         "'releases everything', 'inputs unchanged', 'rerun = clean' are runtime observations per (operation, input, k) under ASan/LSan on generated inputs (stratified k in quick) — not theorems",
         "LeakSanitizer (conservative stack scanning: may miss a leak, does not invent one); live-heap counter of the ASan allocator",
         "single-threaded use of the process-wide interrupt flag (concurrency is C13)",
     ])
-    proved = ctx.prove(PROPS, extra_targets=(DRV,))
+    # translator tie: Generated/Interrupt.lean is rewritten from src/util/Interrupt.cpp + capi/geos_c.cpp and proved equal to the model
+    proved = ctx.prove_generated([("interrupt", "GeosModel/Generated/Interrupt.lean", "GeosModel.Props.C14Gen")], PROPS, extra_targets=(DRV,))
     ok, out = verif.build_geos("asan")
     if not ok:
         ctx.violation("GEOS (asan flavour) does not build", {"kind": "build-failure", "log": out[-3000:]}, nofail=True)
